@@ -964,6 +964,16 @@ def c19(res: Result):
                     "cfg": {"maxm": 100000, "candlim": 1, "rsthr": 1000, "simbudget": 1000, "nfvsthr": 2000}}]
         tasks.append({"kind": "same", "tid": f"s{i}", "tt": tt, "ops": ops, "prelude": prelude,
                       "hashseeds": ["1", "2", "random"] if q else ["1", "2", "3", "4", "random", "random"]})
+    # networks with motif-avoidant / complex attractors (candidate reduction really has choices to make there): full
+    # expansion, all attractor data, several hash seeds
+    import features as _features
+    special = [tt for _, tt in _features.feature_networks(["maa", "complex_attr", "multi_attr_in_min_trap"], 5)]
+    special += [tt for name, tt in gen.gadget_networks().items() if len(tt) <= 5]
+    special.append(bn.from_exprs(3, [lambda s: ((not s[0]) and (not s[1])) or s[2], lambda s: ((not s[0]) and (not s[1])) or s[2], lambda s: s[0] and s[1]]))
+    for i, tt in enumerate(special):
+        ops = [FULL_BFS, {"op": "allseeds"}, {"op": "allsets"}] if i % 2 == 0 else [{"op": "build"}, {"op": "allsets"}]
+        tasks.append({"kind": "same", "tid": f"x{i}", "tt": tt, "ops": ops, "prelude": [],
+                      "hashseeds": ["1", "2", "3", "4", "5"] if q else ["1", "2", "3", "4", "5", "6", "7", "random"]})
     res.cov["rule"] = ("The same call history (a complete strategy, seeds and sets for all nodes, a control call) is executed in fresh interpreters with "
                        "PYTHONHASHSEED 0 / 1 / 2 / random, twice in one process, and after unrelated library activity (other diagrams built, symbolic "
                        "fallback, skipping); Twin.tla requires every logged item to be identical: ids, spaces, edges, motif order, depths, candidates, "
